@@ -56,6 +56,10 @@ type Chan struct {
 	Cap    int
 	Closed bool
 	ElemT  types.Type
+	// Handler, if set (vfOnSend), receives every value sent on the channel at
+	// once: the receiving goroutine is modelled as running to completion at
+	// the moment of the send.
+	Handler Value
 }
 
 type mapEntry struct {
